@@ -23,6 +23,7 @@ import (
 	"fmt"
 	"math/rand"
 	"runtime"
+	"runtime/debug"
 	"strings"
 	"sync"
 	"sync/atomic"
@@ -723,6 +724,74 @@ func runLastPanic(rng *rand.Rand, n int) result {
 	return s.finish(true)
 }
 
+// a worker that has already served a great many tasks (more than 2^16) is cancelled in the middle of one more:
+// Wait must still wait for that task, and nothing may be left behind afterwards.
+func runMarathon(rng *rand.Rand, n int) result {
+	s := newScenario("marathon", n, 2, context.Background(), func(s *scenario) { s.quiet.Store(true) })
+	s.tl.SetTimeout(2 * time.Second)
+	const total = 70000
+	s.note = fmt.Sprintf("n=%d: %d empty tasks through the lane without per-step events, then cancelled while one more task runs per worker", n, total*n)
+	var wg sync.WaitGroup
+	for lane := 0; lane < n; lane++ {
+		wg.Add(1)
+		go func(lane int) {
+			defer wg.Done()
+			t := &task{sc: s} // one reusable empty task object: only the count matters here
+			for k := 0; k < total; k++ {
+				s.tl.PushTask(t, lane)
+			}
+		}(lane)
+	}
+	wg.Wait()
+	for i := 0; i < 400; i++ { // let the lane drain
+		if s.tl.Status().PendingTask == 0 {
+			break
+		}
+		time.Sleep(5 * time.Millisecond)
+	}
+	time.Sleep(20 * time.Millisecond)
+	s.quiet.Store(false)
+	for lane := 0; lane < n; lane++ {
+		s.push(1, s.mkTask(0, true, nil), lane)
+	}
+	s.quiesce("pin")
+	return s.finish(true)
+}
+
+// one worker recovers from a very large number of panics in a row: whatever a recovery costs must not add up
+// (the harness lowers the goroutine stack limit to 64 MiB so that a leak per recovery shows within seconds).
+func runPanicMarathon(rng *rand.Rand, total int) result {
+	s := newScenario("panicmarathon", 1, 8, context.Background(), func(s *scenario) { s.quiet.Store(true) })
+	s.tl.SetTimeout(5 * time.Second)
+	s.note = fmt.Sprintf("n=1 q=8: %d tasks, two of three panicking, through one worker without per-step events", total)
+	boom := &task{sc: s, panicV: "boom"}
+	fine := &task{sc: s}
+	accepted := 0
+	for k := 0; k < total; k++ {
+		t := boom
+		if k%3 == 2 {
+			t = fine
+		}
+		if s.tl.PushTask(t, 0) == nil {
+			accepted++
+		}
+	}
+	for i := 0; i < 1000; i++ {
+		if s.tl.Status().PendingTask == 0 && int(boom.starts.Load()+fine.starts.Load()) == accepted {
+			break
+		}
+		time.Sleep(5 * time.Millisecond)
+	}
+	st := s.tl.Status()
+	started := int(boom.starts.Load() + fine.starts.Load())
+	s.quiet.Store(false)
+	s.buf().Emit(ev{E: "task.panic", T: 0, V: tagOf("boom")})
+	s.buf().Emit(ev{E: "w.recovered"})
+	s.buf().Emit(ev{E: "burst.summary", G: accepted, B: started, T: 0, Pend: st.PendingTask, V: tagOf(st.LastPanic)})
+	s.status(90)
+	return s.finish(false)
+}
+
 func runPanics(rng *rand.Rand) result {
 	n, q := 2+rng.Intn(2), 1+rng.Intn(2)
 	bar := &sync.WaitGroup{}
@@ -777,9 +846,11 @@ func main() {
 	npanics := flag.Int("panics", 6, "")
 	ntimeouts := flag.Int("timeouts", 4, "")
 	nlast := flag.Int("lastpanic", 10, "")
+	npanicm := flag.Int("panicmarathon", 300000, "tasks in the panic marathon")
 	nburst := flag.Int("burst", 4, "")
 	burstPer := flag.Int("burstper", 60, "tasks per producer in a burst scenario")
 	flag.Parse()
+	debug.SetMaxStack(64 << 20)
 	tasklane.VerifHook = hook
 	rng := rand.New(rand.NewSource(vio.Seed()))
 	w := vio.Create(*out)
@@ -824,6 +895,8 @@ func main() {
 		w.Put(runQuietBurst(rng, 4, i%3, 40**burstPer))
 		w.Put(runQuietBurst(rng, 1+i%2, i%2, 20**burstPer)) // the tightest bound: one or two lanes, little or no buffer
 	}
+	w.Put(runMarathon(rng, 1+int(vio.Seed())%2))
+	w.Put(runPanicMarathon(rng, *npanicm))
 	for i := 0; i < *nlast; i++ {
 		w.Put(runLastPanic(rng, 1+i%2))
 	}
